@@ -67,6 +67,9 @@ def objectives(n):
     _sum(_sq(["bin", "-", X, Y]), ["un", "cosh", Z], ["bin", "*", _c(0.5), ["dotself", V, "dot"]]),             # 8 smooth convex, coupled
     _sum(_sq(["bin", "-", W, _c(1)]), _sq(["bin", "-", X, _c(2)]), _sq(["bin", "+", Y, _c(1)])),                  # 9 convex over {w10, x, y}
     _sum(_sq(["bin", "-", X, _c(2)]), _sq(["bin", "+", Y, _c(1)]), _sq(["bin", "-", Z, _c(3)])),                  # 10 convex over {x, y, z}: same count as 9
+    # 11 convex over {v, w10, x, z}: against objective 1 ({v, x, y, z}) the variable count, the first and the last variable are the
+    # same and only the middle differs (x moves from column n+1 to column n)
+    _sum(_sq(["bin", "-", W, _c(1)]), _sq(["bin", "-", X, _c(2)]), _sq(["bin", "+", Z, _c(1)]), ["dotself", V, "dot"]),
     ]
 
 
@@ -90,7 +93,7 @@ def constraints(n):
 
 OBJECTIVES, CONSTRAINTS = objectives(3), constraints(3)   # index ranges (the recipes are rebuilt per case for its vector size)
 METHODS = ["auto", "auto", "linprog", "SLSQP", "trust-constr", "L-BFGS-B", "solve_lp()"]   # solve_lp(): the public function of optyx.solvers.lp_solver
-CONVEX = [1, 2, 8, 9, 10]  # strictly convex in every variable they mention... (5 and 4 are convex but mention fewer variables)
+CONVEX = [1, 2, 8, 9, 10, 11]  # strictly convex in every variable they mention... (5 and 4 are convex but mention fewer variables)
 BOUNDS = [None, -2, 0, 1, 3, -4, 2, 5]
 INIT_LB, INIT_UB = -10.0, 10.0
 
@@ -161,11 +164,13 @@ def histories(draw):
                 steps.append([draw(st.sampled_from(["set_lb", "set_ub"])), "v", draw(st.sampled_from([-2, 0, 1, 3]))])
             steps.append(["solve", m])
         nsolves += 2
-    if draw(st.integers(0, 5)) == 0 and not free_start:
+    if draw(st.integers(0, 3)) == 0 and not free_start:
         # the objective is replaced by one over another variable set of the SAME size while a general constraint stays
         m = draw(st.sampled_from(["SLSQP", "auto", "trust-constr"]))
-        a_, b_ = draw(st.sampled_from([(9, 10), (10, 9)]))
-        steps += [["minimize", a_], ["subject_to", draw(st.sampled_from([0, 1, 3]))], ["solve", m], ["minimize", b_], ["solve", m]]
+        a_, b_ = draw(st.sampled_from([(9, 10), (10, 9), (1, 11), (11, 1), (11, 1), (1, 11)]))
+        # with (1, 11) the count, the first and the last variable all stay and a kept row's variable changes its column
+        steps += [["minimize", a_], ["subject_to", draw(st.sampled_from([0, 1, 3] + ([6, 7, 0, 3] if 11 in (a_, b_) else [])))], ["solve", m],
+                  ["minimize", b_], ["solve", m]]
         nsolves += 2
     if nsolves == 0:
         steps.append(["solve", draw(st.sampled_from(METHODS))])
